@@ -731,6 +731,9 @@ func (s *Session) evalCall(se *SpecEnv, x *SCall) Val {
 		case "lastok": // lastok("F"): boolean result of the most recent call of event function F
 			name := x.Args[0].(*SStr).V
 			return boolVal(Eq(Select(s.ghostGet(se.st, "evres"), s.strLit(name)), I(1)))
+		case "unixsec": // Unix() of a time.Time: floor(unixnano / 1e9)
+			v := s.evalSpec(se, x.Args[0])
+			return untypedInt(app(SInt, "div", s.unixNano(v), I(1000000000)))
 		case "lastnow": // nanosecond reading of the most recent time.Now() call
 			return untypedInt(Select(s.ghostGet(se.st, "evres"), s.strLit("time.Now")))
 		case "isnil":
@@ -765,6 +768,16 @@ func (s *Session) evalCall(se *SpecEnv, x *SCall) Val {
 				args = append(args, s.materialize(s.evalSpec(se, a)).L...)
 			}
 			return scalar(types.Typ[types.String], s.uf("pure:"+name, SInt, args...))
+		case "euf", "eufb": // engine-level uninterpreted function by its raw name (e.g. "parseuint")
+			name := x.Args[0].(*SStr).V
+			var args []T
+			for _, a := range x.Args[1:] {
+				args = append(args, intLeaves(s.materialize(s.evalSpec(se, a)).L)...)
+			}
+			if x.Fun == "eufb" {
+				return boolVal(s.uf(name, SBool, args...))
+			}
+			return untypedInt(s.uf(name, SInt, args...))
 		case "uf": // uf("name", args...) : uninterpreted integer function (ghost abstraction)
 			name := x.Args[0].(*SStr).V
 			var args []T
